@@ -19,3 +19,13 @@ Definition check_hist (ops : list op) (obs_apps : list nat) (gets : list (option
   ((if nats_eqb (apps init ops) obs_apps && omsgs_eqb (map (get s) (seq 0 (length gets))) gets then 0 else 1),
    (* the property on the implementation's reads: the abstract log is readable message by message, nothing more *)
    (if omsgs_eqb (map Some lg ++ [None]) gets then 0 else 1)).
+
+(* the same with an acknowledged position: the queue's read barrier was moved (SetAcknowledgedSeq) at some points of the
+   history - no operation of the model, nothing about the appended messages may change - so the first [acked] positions are
+   legitimately unreadable at the end *)
+Definition mask {A} (acked : nat) (l : list (option A)) : list (option A) :=
+  repeat None (Nat.min acked (length l)) ++ skipn acked l.
+Definition check_hist_acked (acked : nat) (ops : list op) (obs_apps : list nat) (gets : list (option msg)) : nat * nat :=
+  let '(s, lg) := run init [] ops in
+  ((if nats_eqb (apps init ops) obs_apps && omsgs_eqb (mask acked (map (get s) (seq 0 (length gets)))) gets then 0 else 1),
+   (if omsgs_eqb (mask acked (map Some lg ++ [None])) gets then 0 else 1)).
